@@ -21,7 +21,6 @@ from __future__ import annotations
 
 import dataclasses
 import math
-import random
 
 from oracles import ref_indicators as R
 
